@@ -292,7 +292,8 @@ pub fn pm1_impl(n: &Uint, b1: u64, b2: f64, verbosity: Verbosity) -> Option<(Vec
                     expblock = 1;
                 }
             }
-            if stop || expblock_lg.bits() > 1024 - 32 {
+            // Keep room for the next 64-bit block: the product above must fit in 1024 bits.
+            if stop || expblock_lg.bits() > 1024 - 64 {
                 g = exp_modn_large(&zn, &g, &expblock_lg);
                 gpows.push(zn.sub(&g, &zn.one()));
                 expblock_lg = U1024::ONE;
